@@ -56,7 +56,7 @@ Proof.
                 (mk_pstate (s_dirs st)
                    [ps_dot_prec (ms_rec dt (ms_ext_at (ms_DB t) p) dl 2 [0]) 0 1 34;
                     ps_dot_prec (ms_rec dt (ms_ext_at (ms_DB t) (removelast p)) (ms_dlen_at t (removelast p)) 2 [1]) 1 1 68]
-                   (tl (s_queue st)) (s_inodes st) (s_e2i st) (ms_ext_at (ms_DB t) p :: s_seen st) 3 (s_lastbyte st)))
+                   (tl (s_queue st)) (s_inodes st) (s_e2i st) (ps_blocks_of (ms_ext_at (ms_DB t) p) dl ++ s_seen st) 3 (s_lastbyte st)))
       as (_ & _ & L). rewrite L. reflexivity.
 Qed.
 
